@@ -1,14 +1,18 @@
 #!/bin/bash
-# seedbattery.sh [ids...] : run every seed under /verif/seeded against the property it breaks; one line per seed.
-cd /verif
+# seedbattery.sh [ids...] : run every seed under seeded/ against the property it breaks; one line per seed.
+# REPO / VERIF (default /repo, /verif) let the battery run on snapshots (vp run --with-repo): the replay crates and the Kani
+# crate name the repository by absolute path, so in a snapshot those paths are rewritten first (see tools/battery_snapshot.sh).
+REPO=${REPO:-/repo}; VERIF=${VERIF:-/verif}
+export VERIF_REPO=$REPO
+cd $VERIF
 ids="$@"; [ -z "$ids" ] && ids=$(ls seeded)
 for id in $ids; do
   prop=$(python3 -c "import json;print(json.load(open('seeded/$id/meta.json'))['breaks_property'].split()[0])")
-  if [ "$id" = "C13f" ]; then (cd /repo && git checkout -q 07b6150 -- zlink-core/src/idl/parse/mod.rs); fi
-  if ! git -C /repo apply /verif/seeded/$id/patch.diff 2>/dev/null; then echo "$id $prop PATCH-DOES-NOT-APPLY"; git -C /repo checkout -q HEAD -- .; continue; fi
+  if [ "$id" = "C13f" ]; then (cd $REPO && git checkout -q 07b6150 -- zlink-core/src/idl/parse/mod.rs); fi
+  if ! git -C $REPO apply $VERIF/seeded/$id/patch.diff 2>/dev/null; then echo "$id $prop PATCH-DOES-NOT-APPLY"; git -C $REPO checkout -q HEAD -- .; continue; fi
   out=$(python3 check.py $prop 2>&1); rc=$?
   line=$(echo "$out" | grep -E "^VIOLATION|^UNDECIDED|^OK" | head -1 | cut -c1-150)
   ob=$(echo "$out" | grep -E "^failed obligation" | head -1 | sed -E 's/failed obligation ([^ ]+).*/\1/')
   echo "$id $prop rc=$rc $ob | $line"
-  git -C /repo checkout -q HEAD -- . ; git -C /repo reset -q
+  git -C $REPO checkout -q HEAD -- . ; git -C $REPO reset -q
 done
